@@ -256,7 +256,7 @@ def install_wrappers(R):
     R.prop_meta["C03"] = dict(
         bounded_in_quick="ds.sel(point) == fn(point) at every grid point, coordinate/attribute/resource recording and DataFrame row pairing on the "
                          "real xarray/pandas objects: replay/C03.py, random grids (2 arguments, 1-4 values), 1-2 outputs (also one output whose value is a tuple), internal dimension from "
-                         "a constant, shuffle in {False, True, 3}, direct and via Runner",
+                         "a constant, shuffle in {False, True, 3}, direct and via Runner; labelled outputs (var_names=None, dict / Dataset) over 1-4 swept arguments",
         not_decided=["semantics of xarray.Dataset construction / sel and of numpy array nesting (external)",
                      "labelling of case sweeps and var_names=None outputs"],
     )
